@@ -17,6 +17,7 @@ class RateLimitS1(Segment):
     start = 0
     props = ['C13', 'C04', 'C05', 'C02', 'C10']
     data_fields = ('next',)
+    inflight_post = {'yield:1': 'occ(metadata)', 'yield:2': 'occ(metadata)'}
     assumptions = ('time() is read once per call and never runs backwards inside a segment',
                    'timers are punctual in virtual time (C13 order clause): a timer runs before any callback '
                    'scheduled at a later virtual instant; ready callbacks run FIFO')
@@ -48,7 +49,9 @@ class RateLimitS2(Segment):
     cls = 'rate_limit'
     method = 'update'
     start = 1
-    props = ['C13', 'C02', 'C10']
+    props = ['C13', 'C02', 'C10', 'C04', 'C05']
+    inflight_pre = 'occ(metadata)'
+    inflight_post = {'yield:2': 'occ(metadata)'}
 
     def make_self(self, I):
         interval, nxt = z3.Real('interval'), z3.Real('next0')
@@ -64,10 +67,22 @@ class RateLimitS2(Segment):
         return [Clause('C13.emits_the_element_it_received_once', ['C13', 'C02'], when='yield:2',
                        text='emitted == [x] and self.next == old(self.next)'),
                 Clause('C10.metadata_unchanged', ['C10'], when='yield:2', text='emitted_md == [metadata]'),
-                Clause('C13.no_other_outcome', ['C13'], when='return', text='False')]
+                Clause('C13.no_other_outcome', ['C13'], when='return', text='False')] + self.segment_clauses()
 
 
-ALL = [RateLimitS1, RateLimitS2]
+class RateLimitS3(RateLimitS2):
+    """downstream finished: give the hold back"""
+    start = 2
+    name = 'rate_limit.update@2'
+    inflight_pre = 'occ(metadata)'
+    inflight_post = {}
+
+    def clauses(self):
+        return [Clause('C05.releases_after_downstream_completed', ['C05', 'C04', 'C13'], when='return',
+                       text='delta == -occ(metadata) and emitted == [] and self.next == old(self.next)')] + self.segment_clauses()
+
+
+ALL = [RateLimitS1, RateLimitS2, RateLimitS3]
 
 
 # --------------------------------------------------------------------------- buffer / delay (queue nodes)
@@ -404,55 +419,66 @@ ALL += [DelayUpdate, DelayCb0, DelayCb1, DelayCb2, DelayCb3, TimedWindowUpdate, 
 
 # --------------------------------------------------------------------------- latest (C14)
 class LatestNode(Segment):
-    """Ghost protocol state (DESIGN C14): arr = number of arrivals, slot_pos = arrival index of the element in the
-    slot, last_pos = arrival index of the last delivered element, fresh = slot holds an undelivered element,
-    pending = posted notify callbacks not yet run, waiting = cb blocked in condition.wait(), woken = cb was notified
-    and will resume.  Invariants:
-      J1  fresh <=> slot_pos > last_pos
-      J2  fresh ==> pending > 0 or woken          (lost-wake-up freedom: somebody will deliver the newest element)
-      J3  woken ==> fresh                         (a wake-up always finds something new: no element delivered twice)
+    """Ghost protocol state (DESIGN C14): arr = number of arrivals, slot_pos = arrival index of the element last written
+    to the slot, last_pos = arrival index of the last delivered element, pending = posted notify callbacks not yet run,
+    waiting = cb blocked in condition.wait(), woken = cb was notified and will resume inside its `while not self.next`
+    loop.  The slot `self.next` is [] exactly when its element has been consumed.  Invariants:
+      J1  len(next) == 1  <=>  slot_pos > last_pos        (the slot is non-empty iff it holds an undelivered element)
+      J2  len(next) == 1 and waiting  ==>  pending > 0    (lost-wake-up freedom: a waiting forwarder will be notified)
+      J3  delivered positions strictly increase            (checked where an element is delivered)
     """
     held_text = 'occ(self.next_metadata)'
     data_fields = ('next',)
     inline = ('latest.condition',)
     assumptions = ('tornado.locks.Condition: notify() completes the first waiter; with no waiter it does nothing '
-                   '(trusted, DESIGN Appendix B); the event loop is fair (liveness reading of J2)',)
+                   '(trusted, DESIGN Appendix B); the event loop is fair (liveness reading of J2)',
+                   'latest keeps holding the element in its slot until it is replaced (test_latest_ref_counts)')
 
     def make_self(self, I):
         g = I.st.ghost
         for n in ('arr', 'slot_pos', 'last_pos', 'pending'):
             g[n] = VInt(z3.Int(n + '0'))
-        for n in ('fresh', 'waiting', 'woken'):
+        for n in ('waiting', 'woken'):
             g[n] = VBool(z3.Bool(n + '0'))
-        nxt = I.st.new_list(z3.Const('next0', sym.SeqElemS), K_ELEM)
-        self.assume_inv(I)
-        I.st.assume(z3.Length(z3.Const('next0', sym.SeqElemS)) <= 1)
-        I.st.assume((z3.Length(z3.Const('next0', sym.SeqElemS)) == 1) == (z3.Int('slot_pos0') >= 1))
-        return {'next': nxt, 'next_metadata': VSeq(z3.Const('nmd0', sym.SeqMdS), K_MDE),
-                '_condition': VRef(z3.Const('cond', sym.Obj), 'Condition')}
+        self.next0 = z3.Const('next0', sym.SeqElemS)
+        nxt = I.st.new_list(self.next0, K_ELEM)
+        f = {'next': nxt, 'next_metadata': VSeq(z3.Const('nmd0', sym.SeqMdS), K_MDE),
+             '_condition': VRef(z3.Const('cond', sym.Obj), 'Condition')}
+        self._selfloc = None
+        I.st.assume(z3.Length(self.next0) <= 1)
+        self._pending_assume = True
+        return f
 
-    def inv_terms(self, g):
-        fresh, woken, pending = g['fresh'].t, g['woken'].t, g['pending'].t
-        return [('J1_fresh_iff_slot_newer_than_last_delivered', fresh == (g['slot_pos'].t > g['last_pos'].t)),
-                ('J2_no_lost_wakeup', z3.Implies(fresh, z3.Or(pending > 0, woken))),
-                ('J3_wakeup_finds_new_element', z3.Implies(woken, fresh)),
-                ('structural', z3.And(pending >= 0, g['arr'].t >= g['slot_pos'].t, g['slot_pos'].t >= 0,
-                                      g['last_pos'].t >= 0, g['last_pos'].t <= g['slot_pos'].t,
-                                      z3.Not(z3.And(g['waiting'].t, woken))))]
+    def requires(self, I, selfv, loc):
+        self.assume_inv(I, selfv)
 
-    def assume_inv(self, I):
-        for n, f in self.inv_terms(I.st.ghost):
+    def slot_len(self, I, st, selfv):
+        cell = st.heap[selfv.loc]
+        t = st.list_cell(cell.fields['next'].loc).term
+        return z3.IntVal(0) if t is None else z3.Length(t)
+
+    def inv_terms(self, I, st, selfv):
+        g = st.ghost
+        n = self.slot_len(I, st, selfv)
+        return [('J1_slot_nonempty_iff_undelivered', (n == 1) == (g['slot_pos'].t > g['last_pos'].t)),
+                ('J2_no_lost_wakeup', z3.Implies(z3.And(n == 1, g['waiting'].t), g['pending'].t > 0)),
+                ('structural', z3.And(g['pending'].t >= 0, g['arr'].t >= g['slot_pos'].t, g['slot_pos'].t >= 0,
+                                      g['last_pos'].t >= 0, g['last_pos'].t <= g['slot_pos'].t, n <= 1,
+                                      z3.Not(z3.And(g['waiting'].t, g['woken'].t))))]
+
+    def assume_inv(self, I, selfv):
+        for n, f in self.inv_terms(I, I.st, selfv):
             I.st.assume(f)
 
     def inv_clauses(self, when):
         def mk(i):
             def fn(self_, I, o, fr):
                 self.ghost_step(o.state.ghost, o)
-                return self.inv_terms(o.state.ghost)[i][1]
+                return self.inv_terms(I, o.state, self.pre_args['self'])[i][1]
             return fn
-        names = ['J1_fresh_iff_slot_newer_than_last_delivered', 'J2_no_lost_wakeup', 'J3_wakeup_finds_new_element',
-                 'structural']
-        return [Clause('C14.' + n, ['C14'], fn=mk(i), when=when, kind='protocol') for i, n in enumerate(names)]
+        names = ['J1_slot_nonempty_iff_undelivered', 'J2_no_lost_wakeup', 'structural']
+        return [Clause('C14.' + n, ['C14'], fn=mk(i), when=when, kind='protocol', replay={'scenario': 'latest_lost_wakeup'})
+                for i, n in enumerate(names)]
 
     def ghost_step(self, g, o):
         pass
@@ -471,7 +497,6 @@ class LatestUpdate(LatestNode):
         # one arrival: the slot now holds element number arr+1; one notify callback was posted
         g['arr'] = VInt(g['arr'].t + 1)
         g['slot_pos'] = g['arr']
-        g['fresh'] = VBool(True)
         g['pending'] = VInt(g['pending'].t + len(g['callbacks'].items))
 
     def clauses(self):
@@ -499,10 +524,13 @@ class LatestNotify(LatestNode):
             I.st = st
             self.init_ghost(st)
             self.init_async_ghost(st)
-            self.make_self(I)
+            fields = self.base_fields()
+            fields.update(self.make_self(I))
+            selfv = st.new_obj(self.cls, fields)
+            self.assume_inv(I, selfv)
             g = st.ghost
             st.assume(g['pending'].t > 0)
-            self.pre_args = {}
+            self.pre_args = {'self': selfv}
             self.pre_state = st.snapshot()
             g['_pre'] = (self.pre_state, self.pre_args)
             g['pending'] = VInt(g['pending'].t - 1)
@@ -516,15 +544,16 @@ class LatestNotify(LatestNode):
         return self.inv_clauses('return')
 
 
-class LatestCbResume(LatestNode):
-    """cb resumed from condition.wait(): deliver the slot"""
+class LatestCbStart(LatestNode):
+    """cb from its start / from the top of the outer loop: wait while the slot is empty, otherwise deliver"""
     cls = 'latest'
     method = 'cb'
-    start = 1
+    start = 0
     props = ['C14', 'C05', 'C10']
 
     def make_locals(self, I, selfv):
-        I.st.assume(I.st.ghost['woken'].t)
+        g = I.st.ghost
+        I.st.assume(z3.Not(g['waiting'].t))
         return {'self': selfv}
 
     def ghost_step(self, g, o):
@@ -532,30 +561,44 @@ class LatestCbResume(LatestNode):
             return
         g['_stepped'] = True
         g['woken'] = VBool(False)
-        g['delivered_pos'] = g['slot_pos']
-        g['prev_last'] = g['last_pos']
-        g['last_pos'] = g['slot_pos']
-        g['fresh'] = VBool(False)
+        if o.kind == 'yield' and o.yield_index == 1:
+            g['waiting'] = VBool(True)
+        elif o.kind == 'yield' and o.yield_index == 2:
+            g['delivered_pos'] = g['slot_pos']
+            g['prev_last'] = g['last_pos']
+            g['last_pos'] = g['slot_pos']
 
     def clauses(self):
         def strictly_newer(self_, I, o, fr):
             self.ghost_step(o.state.ghost, o)
             g = o.state.ghost
             return g['delivered_pos'].t > g['prev_last'].t
-        return [Clause('C14.delivers_slot_content', ['C14'], when='yield:2',
-                       text='emitted == old(list(self.next)) and len(emitted) == 1'),
+        return [Clause('C14.waits_only_when_slot_is_empty', ['C14'], when='yield:1',
+                       text='old(len(self.next)) == 0 and emitted == [] and waits == 1',
+                       note='the slot is re-checked before waiting: an arrival during a busy period is not missed'),
+                Clause('C14.delivers_slot_content_and_consumes_it', ['C14'], when='yield:2',
+                       text='emitted == old(list(self.next)) and len(emitted) == 1 and len(self.next) == 0'),
                 Clause('C14.delivered_positions_strictly_increase', ['C14'], fn=strictly_newer, when='yield:2',
-                       kind='protocol', note='I1: subsequence in order, nothing delivered twice'),
-                Clause('C10.slot_metadata_travels', ['C10'], when='yield:2', text='emitted_md == [old(self.next_metadata)]'),
-                ] + self.inv_clauses('yield:2') + self.segment_clauses()
+                       kind='protocol', note='J3: subsequence in the original order, nothing delivered twice'),
+                Clause('C10.slot_metadata_travels', ['C10'], when='yield:2', text='emitted_md == [self.next_metadata]'),
+                ] + self.inv_clauses('normal') + self.segment_clauses()
 
 
-class LatestCbLoop(LatestNode):
-    """downstream finished: back to waiting"""
-    cls = 'latest'
-    method = 'cb'
+class LatestCbWoken(LatestCbStart):
+    """resumed from condition.wait() (woken by a notify)"""
+    start = 1
+    name = 'latest.cb@1'
+
+    def make_locals(self, I, selfv):
+        g = I.st.ghost
+        I.st.assume(g['woken'].t)
+        return {'self': selfv}
+
+
+class LatestCbAfterEmit(LatestCbStart):
+    """downstream finished: back to the top of the loop"""
     start = 2
-    props = ['C14', 'C05']
+    name = 'latest.cb@2'
 
     def make_locals(self, I, selfv):
         g = I.st.ghost
@@ -563,21 +606,8 @@ class LatestCbLoop(LatestNode):
         I.st.assume(z3.Not(g['woken'].t))
         return {'self': selfv, 'x': VElem(z3.Const('x', sym.Elem))}
 
-    def ghost_step(self, g, o):
-        if g.get('_stepped'):
-            return
-        g['_stepped'] = True
-        if o.kind == 'yield' and o.yield_index == 1:
-            g['waiting'] = VBool(True)
 
-    def clauses(self):
-        return [Clause('C05.delivered_element_is_released', ['C05'], when='any',
-                       text='occ(self.next_metadata) == 0 or slot_pos > last_pos',
-                       note='after the downstream emission completed the node no longer holds the delivered element'),
-                ] + self.inv_clauses('any') + self.segment_clauses()
-
-
-ALL += [LatestUpdate, LatestNotify, LatestCbResume, LatestCbLoop]
+ALL += [LatestUpdate, LatestNotify, LatestCbStart, LatestCbWoken, LatestCbAfterEmit]
 
 
 # --------------------------------------------------------------------------- sink
@@ -610,6 +640,21 @@ class SinkUpdate(NodeUpdate):
         d['awaitable'] = awaitable
         return d
 
+    def summaries(self):
+        d = NodeUpdate.summaries(self)
+
+        def release_when_done(I, recv, args, kwargs):
+            # calling the async def only creates the coroutine object (proved separately: SinkReleaseWhenDone*)
+            g = I.st.ghost
+            g['wrapped'] = VTuple([args[0], args[1]])
+            return VElem(sym.user_func('release_when_done', 1)(I.as_elem(args[0])))
+        d['sink._release_when_done'] = release_when_done
+        return d
+
+    def init_ghost(self, st):
+        NodeUpdate.init_ghost(self, st)
+        st.ghost['wrapped'] = VTuple([])
+
     def clauses(self):
         def called_once(self_, I, o, fr):
             evs = [e for e in o.state.events if e['kind'] == 'opaque' and e['name'] == 'func']
@@ -621,7 +666,7 @@ class SinkUpdate(NodeUpdate):
             Clause('C01.func_called_exactly_once_with_the_element', ['C01', 'C02'], fn=called_once, when='return',
                    kind='called_once'),
             Clause('C03.returns_the_consumers_awaitable', ['C03', 'C02'], when='return',
-                   text='implies(awaitable(%s), elem(result) == %s)' % (res, res),
+                   text='implies(awaitable(%s), elem(result) == %s or (len(wrapped) == 2 and wrapped[0] == %s and wrapped[1] == metadata))' % (res, res, res),
                    note='native coroutines and Tornado futures alike: whatever gen.isawaitable accepts reaches the emitter'),
             Clause('C03.synchronous_consumer_returns_nothing_to_wait_for', ['C03'], when='return',
                    text='implies(not awaitable(%s), len(result) == 0)' % res),
@@ -631,7 +676,43 @@ class SinkUpdate(NodeUpdate):
         ] + user_raise_clauses(self)
 
 
-ALL += [SinkUpdate]
+class SinkReleaseWhenDone0(Segment):
+    """sink._release_when_done: awaits the consumer's awaitable ..."""
+    cls = 'sink'
+    method = '_release_when_done'
+    file = 'streamz/sinks.py'
+    files = ['streamz/sinks.py', 'streamz/core.py']
+    start = 0
+    props = ['C03', 'C04', 'C05']
+    inflight_pre = 'occ(metadata)'
+    inflight_post = {'yield:1': 'occ(metadata)'}
+
+    def make_locals(self, I, selfv):
+        return {'self': selfv, 'awaitable': VElem(z3.Const('awaitable', sym.Elem)),
+                'metadata': VSeq(z3.Const('md', sym.SeqMdS), K_MDE)}
+
+    def clauses(self):
+        def awaits_it(self_, I, o, fr):
+            return I.eq(o.value, self.pre_args['awaitable'])
+        return [Clause('C03.awaits_the_consumer_first', ['C03', 'C04'], fn=awaits_it, when='yield:1', kind='protocol'),
+                Clause('C04.still_holds_while_consumer_pending', ['C04'], when='yield:1', text='delta == 0')] + self.segment_clauses()
+
+
+class SinkReleaseWhenDone1(SinkReleaseWhenDone0):
+    """... and releases the element only after it has completed"""
+    start = 1
+    name = 'sink._release_when_done@1'
+    inflight_post = {}
+
+    def resume(self, I, loc):
+        return Resume(VElem(z3.Const('consumer_result', sym.Elem)))
+
+    def clauses(self):
+        return [Clause('C05.releases_after_consumer_completed', ['C05', 'C04'], when='return',
+                       text='delta == -occ(metadata)')] + self.segment_clauses()
+
+
+ALL += [SinkUpdate, SinkReleaseWhenDone0, SinkReleaseWhenDone1]
 
 
 # --------------------------------------------------------------------------- partition (size flush, timeout flush)
@@ -926,6 +1007,7 @@ class MapAsyncUpdate(MapAsyncNode):
     method = 'update'
     start = 0
     props = ['C02', 'C03', 'C04', 'C05']
+    inflight_post = {'return': 'occ(metadata)'}      # held on behalf of the job that has not entered the queue yet
 
     def clauses(self):
         return [Clause('C03.returns_the_insert_job_task', ['C03', 'C02'], when='return',
@@ -942,8 +1024,8 @@ class MapAsyncInsertJob(MapAsyncNode):
     method = '_insert_job'
     start = 0
     props = ['C02', 'C03', 'C04', 'C05', 'C10']
-    inflight_pre = '0'
-    inflight_post = {'yield:1': '0'}
+    inflight_pre = 'occ(metadata)'
+    inflight_post = {'yield:1': 'occ(metadata)', 'raise': 'occ(metadata)'}
 
     def make_locals(self, I, selfv):
         g = I.st.ghost
@@ -962,14 +1044,15 @@ class MapAsyncInsertJob(MapAsyncNode):
         return [Clause('C02.job_enqueued_fifo', ['C02', 'C10'], when='return', text='Q == old(Q) + [%s]' % job,
                        note='the job (mapped coroutine + metadata) joins the tail of the work queue exactly once'),
                 Clause('C02.slot_goes_to_the_longest_waiting_job', ['C02'], when='return', text='Waiting[0] == my_pos',
-                       kind='protocol',
+                       kind='protocol', replay={'scenario': 'map_async_overtake'},
                        note='order preservation: a job may only take a free slot if no earlier arrival is still waiting for one'),
                 Clause('C03.created_unfinished_jobs_bounded_by_parallelism', ['C03'], when='return',
-                       text='len(Q) + awaited <= p', kind='protocol',
+                       text='len(Q) + awaited <= p', kind='protocol', replay={'scenario': 'map_async_bound'},
                        note='documented bound: at most `parallelism` mapped coroutines exist at any time (queued + being awaited)'),
                 Clause('C03.spins_without_touching_the_queue', ['C03', 'C02'], when='yield:1',
                        text='Q == old(Q) and len(Q) >= p and delta == 0'),
-                Clause('C05.retains_queued_job', ['C05', 'C04'], when='return', text='delta == occ(metadata)'),
+                Clause('C05.hold_moves_into_the_queue', ['C05', 'C04'], when='return', text='delta == 0',
+                       note='the hold taken by update() now accounts for the queued job'),
                 ] + self.segment_clauses()
 
 
